@@ -188,8 +188,15 @@ def run(ctx):
             v_def, _ = ev.call_function(q_, [w_])
             v_exp, _ = ev.call_function(q_, [w_], {'account': T.const(0), 'interval': T.tup([T.const(0), T.const(20)])})
             same_term(ob, v_def, v_exp, 'bip%d() without arguments is bip%d(account=0, interval=(0, 20))' % (purpose, purpose), fi.where)
-        ob.require(dumps[44] == dumps[49] == dumps[84], 'bip44/bip49/bip84 differ in more than (purpose constant, group method)',
-                   p.get_function('paper_wallet.PaperWallet.bip49').where)
+        if dumps[44] == dumps[49] == dumps[84]:
+            ob.require(True, 'bip44/bip49/bip84 are the same text up to (purpose constant, group method)',
+                       p.get_function('paper_wallet.PaperWallet.bip49').where)
+        else:
+            # spelt differently (operands swapped, a helper in one of them ...): what each of them computes is compared with
+            # the specification by C06.RECORD, block by block - a copy-paste slip in one sibling shows up there
+            ob.note('bip44/bip49/bip84 are not the same text up to (purpose constant, group method); their values are decided '
+                    'by C06.RECORD')
+            ob.evaluations += 1
         fg = p.get_function('paper_wallet.PaperWallet.generate')
         ev = Evaluator(p, 'ecdsa')
         v_def, _ = ev.call_function('paper_wallet.PaperWallet.generate', [w_])
